@@ -202,7 +202,10 @@ def check(chk):
                   'flight; its answer then completes the future a second time')
     g = CFG(se)
     fl = Flow(g, 0, lambda n, c: c)
-    nd = [n for n in g.stmt_nodes() if n.kind == 'stmt' and any(x is sends[0] for x in walk_no_nested(n.ast))][0]
+    nds = [n for n in g.stmt_nodes() if n.ast is not None and any(x is sends[0] for x in (walk_no_nested(n.ast) if isinstance(n.ast, ast.stmt) else ast.walk(n.ast)))]
+    if not nds:
+        raise AnalysisError('_on_speculative_execute: send_request call not in the CFG')
+    nd = nds[0]
     chk.judge(all(fa.knows('self._event.is_set()') is False for fa, _ in fl.at(nd)), 'C14.spec', se, 'speculative send only while the future is not complete',
               'a speculative request can be sent after the outcome was delivered')
 
